@@ -36,7 +36,7 @@ func (fp *fieldProv) addGroup(ri *regexInfo, idx int) {
 }
 
 func (p *Prog) provWalk(v ssa.Value, fp *fieldProv, seen map[ssa.Value]bool, depth int) {
-	if depth > 14 || seen[v] {
+	if depth > 28 || seen[v] {
 		return
 	}
 	seen[v] = true
@@ -98,6 +98,9 @@ func (p *Prog) provWalk(v ssa.Value, fp *fieldProv, seen map[ssa.Value]bool, dep
 				}
 			}
 		}
+	case *ssa.Index:
+		fp.via["elem"] = true
+		p.provWalk(x.X, fp, seen, depth+1)
 	case *ssa.Lookup:
 		fp.via["map"] = true
 		p.provWalk(x.Index, fp, seen, depth+1)
